@@ -684,6 +684,13 @@ def tgtOk : Expr → Bool
   | .seq _ k es c => k != .set && c == .store && es.all isNameT
   | _ => false
 
+/-- `del` targets of the fragment -/
+def delOk : Expr → Bool
+  | .name .. => true
+  | .attr _ o _ _ => fragE o
+  | .subscript _ o s _ => fragE o && fragE s
+  | _ => false
+
 /-- parameters without defaults and annotations -/
 def plainParams : Expr → Bool
   | .arguments _ po ar va ko kd kw df =>
@@ -696,7 +703,7 @@ def fragS (cfg : Config) : Stmt → Bool
   -- `ts = v`: the targets need no statement (else: class `store_target_evaluated_before_value`)
   | .assign _ ts v => !ts.isEmpty && ts.all tgtOk && quiets cfg ts && fragE v && okT cfg v
   -- `x op= v`: `v` must not rebind `x` (else: class `name_read_reordered_after_rebinding_operand`)
-  | .augAssign _ (.name _ x _) _ v => fragE v && okT cfg v && !(writesE v).contains x
+  | .augAssign _ t _ v => isNameT t && fragE v && okT cfg v && disjoint (namesE t) (writesE v)
   | .expr _ v => fragE v && okT cfg v
   | .ret _ vs => (match vs with | [] => true | [v] => fragE v && okT cfg v | _ => false)
   | .raise _ exc cause => (match exc with | [e] => fragE e && okT cfg e | _ => false) && cause.isEmpty
@@ -705,6 +712,10 @@ def fragS (cfg : Config) : Stmt → Bool
   | .try_ _ b hs e f => fragSs cfg b && fragHs cfg hs && fragSs cfg e && fragSs cfg f
   -- a nested `def` without defaults / annotations / decorators whose body is in the fragment
   | .functionDef _ _ as b ds rs _ => plainParams as && quiet cfg as && ds.isEmpty && rs.isEmpty && fragSs cfg b
+  -- `del` of variables / attributes / items whose object and index need no statement
+  | .delete _ ts => ts.all delOk && quiets cfg ts
+  -- `assert` is only accepted when nothing has to be hoisted out of it
+  | .assert_ _ t m => fragE t && (match m with | [] => true | [x] => fragE x | _ => false)
   | .global .. => true
   | .nonlocal .. => true
   | .pass _ => true
